@@ -201,7 +201,9 @@ def opNoiseVar : List String → String
       let n := a.length
       if n = 0 then "unmodelled" else
       let s : Nat → Rat := if snr.length = 1 then (fun _ => snr.headD 1) else arrFn snr.toArray
-      "ok " ++ fmtRats (tab n (Process.noiseVariance (arrFn a.toArray) n s)).toList
+      -- `Process.noiseVariance a n s i` is by definition `Process.signalPower a n / s i`: the power is computed once
+      let p := Process.signalPower (arrFn a.toArray) n
+      "ok " ++ fmtRats (tab n (fun i => p / s i)).toList
     | _, _ => bad2
   | _ => bad2
 
